@@ -386,15 +386,33 @@ def make_machine(max_n: int, with_1000: bool):
 
 @st.composite
 def env_cases(draw, n_min: int, n_max: int):
-    sam = draw(st.booleans())
-    game = draw(sam_games(n_min, n_max)) if sam else draw(superadditive_games(n_min, n_max, classes=("int", "dyadic", "float")))
+    kind = draw(st.sampled_from(["sam", "sa", "sa", "arbitrary", "sa-mutated", "sa-mutated"]))
+    sam = kind == "sam"
+    if kind == "arbitrary":
+        # the property is about determinism, not soundness: hidden games outside the assumed class are in scope
+        game = draw(arbitrary_games(n_min, n_max, classes=("int",)))
+        game["v"] = [float(abs(x) % 7) if bin(s).count("1") == 1 else x for s, x in enumerate(game["v"])]
+    elif kind == "sa-mutated":
+        # almost in the class: a superadditive integer game (many intervals get pinned) with ONE value pushed below its best split
+        game = draw(superadditive_games(n_min, n_max, classes=("int",)))
+        cands = [s for s in range(1 << game["n"]) if bin(s).count("1") >= 2 and s != (1 << game["n"]) - 1]
+        s_ = draw(st.sampled_from(cands))
+        game = dict(game, v=list(game["v"]), how="sa-mutated")
+        game["v"][s_] = game["v"][s_] - draw(st.sampled_from([1.0, 2.0, 5.0]))
+    else:
+        game = draw(sam_games(n_min, n_max)) if sam else draw(superadditive_games(n_min, n_max, classes=("int", "dyadic", "float")))
     n = game["n"]
     comp = draw(st.sampled_from(["sam_apx_1", "sam_apx_10", "superadditive_cached"] if sam else ["superadditive", "superadditive_cached"]))
     nact = (1 << n) - n - 2
     actions = draw(st.lists(st.integers(0, nact - 1), min_size=0, max_size=min(nact, 6), unique=True))
+    if kind == "sa-mutated":
+        # the value that contradicts superadditivity gets revealed first (it is what makes knowledge 'inconsistent')
+        explorable = [s for s in range(1 << n) if bin(s).count("1") not in (0, 1, n)]
+        first = explorable.index(s_)
+        actions = [first] + [a for a in actions if a != first][:3]
     return {"kind": "env", "game": game, "computer": comp, "gap": draw(st.sampled_from(["exploitability", "l1_norm", "l2_norm", "linf_norm"])),
             "budget": draw(st.sampled_from([None, None, 1, 3])), "actions": actions,
-            "walk": draw(st.lists(st.integers(0, 63), max_size=12))}
+            "walk": draw(st.lists(st.integers(0, 63), max_size=12)) if kind != "sa-mutated" else [2 * x for x in draw(st.lists(st.integers(0, 31), min_size=4, max_size=12))]}
 
 
 def _sample(case):
@@ -410,7 +428,7 @@ def _sample(case):
 def plan(tier: str) -> list[dict]:
     if tier == "quick":
         return ([{"mode": "machine", "max_n": 5, "examples": 70, "steps": 25, "cost": 4} for _ in range(6)]
-                + [{"mode": "env", "n_min": 4, "n_max": 5, "examples": 120, "cost": 2} for _ in range(2)]
+                + [{"mode": "env", "n_min": 4, "n_max": 5, "examples": 170, "cost": 3} for _ in range(4)]
                 + [{"mode": "env3", "examples": 30, "cost": 2}])
     return ([{"mode": "machine", "max_n": 5, "examples": 90, "steps": 40, "with_1000": True, "cost": 10} for _ in range(5)]
             + [{"mode": "machine", "max_n": 5, "examples": 250, "steps": 50, "cost": 8} for _ in range(5)]
